@@ -49,6 +49,10 @@ ASSUMPTIONS = [
     'a collection are repeated, with the very same argument objects, on a deep copy of the geometry taken before '
     'the call (the list of names reused on the re-read file / on a model with the same names): the copy must end in '
     'the same canonical state and the first geometry must not change (WAVE3 rule 2: judged by the effect)',
+    'selections with a repeated member in another order (reversed, first member named again) are offered for '
+    'refine, reduce, decompose_columns, refine_layers and both snaps; for the first four a deep copy of the geometry '
+    'gets the selection without the repeat and must end in the same canonical state (a repeated member selects the '
+    'same set); for the snaps, which are not idempotent, only the invariant is judged',
     'after write+read the numbers of nodes, columns, connections, layers and wells must be those written (objects '
     'whose names collide in the file are otherwise dropped silently), besides the invariant on the object read',
     'excluded (DESIGN 4.2): mesh-validity clauses after delete_column / delete_node / add_node / add_column / '
@@ -71,17 +75,19 @@ BOUNDS = {
                           'the 7 shipped geometry files (depth 0, invariant only)',
               'seeds': ['rect2x2', 'rect3x2', 'mixed6', 'g7', 'rect2x2L (left-justified names)',
                         'rect2x1n (atmosphere layer named like a subsurface layer, as g4.dat)',
+                        'rect2x2Lw0 / rect2x2Lw3 (left-justified, the first / the last column renamed to a name that '
+                        'exactly fills its field)',
                         'hang7r0..6 (a 7-node column with three straight mid-side nodes among six quadrilaterals, '
                         'node list started at each of its 7 nodes)'],
               'depth': {'rect2x2': 2, 'rect3x2': 2, 'mixed6': 2, 'g7': 1, 'rect2x2L': 2, 'rect2x1n': 2, 'hang7r0': 2,
-                        'hang7r1': 1, 'hang7r2': 1, 'hang7r3': 1, 'hang7r4': 1, 'hang7r5': 1, 'hang7r6': 1},
+                        'rect2x2Lw0': 2, 'rect2x2Lw3': 1, 'hang7r1': 1, 'hang7r2': 1, 'hang7r3': 1, 'hang7r4': 1, 'hang7r5': 1, 'hang7r6': 1},
               'subsets_depth0': 'every non-empty column subset (<= 6 columns)',
               'subsets_deeper': 'singles and the full set; single-object arguments (split_column quad, delete_column, '
                                 'rename, connection, layer): the first and the last canonical candidate'},
     'thorough': {'builders': 'as quick',
-                 'seeds': ['rect2x2', 'rect3x2', 'mixed6', 'g7', 'rect2x2L', 'rect2x1n', 'hang7r0..6'],
-                 'depth': {'rect2x2': 3, 'rect3x2': 2, 'mixed6': 3, 'g7': 1, 'rect2x2L': 2, 'rect2x1n': 3, 'hang7r0': 2,
-                           'hang7r1': 2, 'hang7r2': 2, 'hang7r3': 2, 'hang7r4': 2, 'hang7r5': 2, 'hang7r6': 2},
+                 'seeds': ['rect2x2', 'rect3x2', 'mixed6', 'g7', 'rect2x2L', 'rect2x1n', 'hang7r0..6', 'rect2x2Lw0', 'rect2x2Lw3'],
+                 'depth': {'rect2x2': 3, 'rect3x2': 2, 'mixed6': 3, 'g7': 1, 'rect2x2L': 3, 'rect2x1n': 3, 'hang7r0': 2,
+                           'rect2x2Lw0': 2, 'rect2x2Lw3': 2, 'hang7r1': 2, 'hang7r2': 2, 'hang7r3': 2, 'hang7r4': 2, 'hang7r5': 2, 'hang7r6': 2},
                  'subsets_depth0': 'every non-empty column subset (<= 6 columns); g7: singles on a stride, one pair, full set',
                  'subsets_depth1': 'all subsets while <= 6 columns, otherwise singles, pairs of neighbours and the full set',
                  'subsets_depth2': 'singles (first/last) and the full set, reduced alphabet'},
@@ -497,6 +503,12 @@ def make_seed(name):
         geo = seed_g7()
     elif name == 'rect2x2L':
         geo = seed_rect(2, 2, 2, [(3, -7.)], justify='l')          # left-justified names
+    elif name in ('rect2x2Lw0', 'rect2x2Lw3'):
+        # left-justified names, one column (the first / the last of the list) carrying a name that exactly fills
+        # its field and so says nothing about justification
+        geo = seed_rect(2, 2, 2, [(2, -7.)], justify='l')
+        with quiet():
+            geo.rename_column(geo.columnlist[int(name[-1])].name, 'w01')
     elif name == 'rect2x1n':
         geo = seed_rect(2, 1, 0, [(1, -7.)], atm_like_layer=True)
     elif name.startswith('hang7r'):
@@ -619,6 +631,8 @@ def ops_of_factory(tier):
                         if reduced and b == 'y':
                             continue
                         ops.append(['refine', S, b])
+                        if (len(S) == 1 or len(S) == nc) and b in (False, True):
+                            ops.append(['refine', S, b, 'dup'])
             if not reduced and all(small.values()):
                 ops.append(['refine', [], False])          # the default argument: all columns
             # split_column: every quadrilateral x every one of its nodes
@@ -633,6 +647,8 @@ def ops_of_factory(tier):
                 for S in subs:
                     if any(i in big for i in S) and (len(S) <= 2 or len(S) == nc):
                         ops.append(['decompose_columns', S])
+                        if len(S) <= 2:
+                            ops.append(['decompose_columns', S, 'dup'])
             ops.append(['fit_surface'])
         # reduce to an edge-connected proper subset
         for S in subs:
@@ -640,6 +656,8 @@ def ops_of_factory(tier):
                 if reduced and len(S) > 1:
                     continue
                 ops.append(['reduce', S])
+                if len(S) <= 2:
+                    ops.append(['reduce', S, 'dup'])
         # renames
         for i in pick(range(nc), cand):
             ops.append(['rename_column', [i], 'str'])
@@ -689,6 +707,8 @@ def ops_of_factory(tier):
                     if reduced and f == 3:
                         continue
                     ops.append(['refine_layers', [i + 1 for i in L], f])
+                    if f == 2 and len(L) <= 2:
+                        ops.append(['refine_layers', [i + 1 for i in L], f, 'dup'])
             if not reduced:
                 ops.append(['refine_layers', [], 2])
             for which in ('same', 'high', 'low'):
@@ -702,6 +722,9 @@ def ops_of_factory(tier):
         for S in ssub:
             ops.append(['snap_columns_to_layers', S])
             ops.append(['snap_columns_to_nearest_layers', S])
+            if S:
+                ops.append(['snap_columns_to_layers', S, 'dup'])
+                ops.append(['snap_columns_to_nearest_layers', S, 'dup'])
         ops.append(['translate'])
         ops.append(['rotate'])
         ops.append(['roundtrip'])
@@ -781,6 +804,18 @@ TWIN_OPS = ('refine', 'decompose_columns', 'reduce', 'rename_column', 'rename_la
             'snap_columns_to_layers', 'snap_columns_to_nearest_layers', 'translate', 'rotate')
 
 
+def selection(names, S, dup):
+    """The argument list for a selection: canonical order, or - 'dup' - in reverse order with the first member
+    named a second time (overlapping polygon selections concatenated, a name typed twice)."""
+    if not dup:
+        return [names[i] for i in S]
+    return [names[i] for i in reversed(S)] + [names[S[0]]]
+
+
+def is_dup(op):
+    return op[-1] == 'dup'
+
+
 def apply_op(st, op):
     """Calls the library.  Returns (promise_mesh, input_class)."""
     import mulgrids
@@ -791,23 +826,23 @@ def apply_op(st, op):
     nodes = canon_nodes(geo)
     if kind == 'refine':
         S, b = op[1], op[2]
-        do(st, 'refine', [cols[i].name for i in S], bisect=b)
-        return True, 'bisect=%s' % (b,)
+        do(st, 'refine', selection([c.name for c in cols], S, is_dup(op)), bisect=b)
+        return True, 'bisect=%s%s' % (b, ',repeated-member' if is_dup(op) else '')
     if kind == 'split_column':
         ok = geo.split_column(cols[op[1]].name, nodes[op[2]].name)
         if ok is not True:
             raise ValueError('split_column of a quadrilateral at one of its nodes returned %r' % (ok,))
         return True, 'quad'
     if kind == 'decompose_columns':
-        do(st, 'decompose_columns', [cols[i].name for i in op[1]])
-        return True, 'all' if not op[1] else 'subset'
+        do(st, 'decompose_columns', selection([c.name for c in cols], op[1], is_dup(op)))
+        return True, ('all' if not op[1] else 'subset') + (',repeated-member' if is_dup(op) else '')
     if kind == 'fit_surface':
         do(st, 'fit_surface', fit_data(geo), silent=True)
         return False, ''
     if kind == 'reduce':
-        do(st, 'reduce', [cols[i].name for i in op[1]])
+        do(st, 'reduce', selection([c.name for c in cols], op[1], is_dup(op)))
         st['valid'] = True          # reduce() runs check(fix=True); re-established below by the reference
-        return True, ''
+        return True, 'repeated-member' if is_dup(op) else ''
     if kind == 'rename_column':
         old = [cols[i].name for i in op[1]]
         new = fresh_names(geo.column.keys(), geo.colname_length, 'z', len(old))
@@ -889,8 +924,8 @@ def apply_op(st, op):
         geo.delete_well(geo.welllist[op[1]].name)
         return False, 'primitive'
     if kind == 'refine_layers':
-        do(st, 'refine_layers', [geo.layerlist[i].name for i in op[1]], factor=op[2])
-        return False, 'factor=%d' % op[2]
+        do(st, 'refine_layers', selection([l.name for l in geo.layerlist], op[1], is_dup(op)), factor=op[2])
+        return False, 'factor=%d%s' % (op[2], ',repeated-member' if is_dup(op) else '')
     if kind == 'copy_layers_from':
         donor = layers_donor(op[1] if len(op) > 1 else 'same')
         st['src'] = [donor]
@@ -901,11 +936,11 @@ def apply_op(st, op):
         st['src'][0].translate([0., 0., 3.0])
         return False, ''
     if kind == 'snap_columns_to_layers':
-        do(st, 'snap_columns_to_layers', 5.0, [cols[i].name for i in op[1]])
-        return False, 'all' if not op[1] else 'subset'
+        do(st, 'snap_columns_to_layers', 5.0, selection([c.name for c in cols], op[1], is_dup(op)))
+        return False, ('all' if not op[1] else 'subset') + (',repeated-member' if is_dup(op) else '')
     if kind == 'snap_columns_to_nearest_layers':
-        do(st, 'snap_columns_to_nearest_layers', [cols[i].name for i in op[1]])
-        return False, 'all' if not op[1] else 'subset'
+        do(st, 'snap_columns_to_nearest_layers', selection([c.name for c in cols], op[1], is_dup(op)))
+        return False, ('all' if not op[1] else 'subset') + (',repeated-member' if is_dup(op) else '')
     if kind == 'translate':
         do(st, 'translate', [7.5, -2.5, 3.0], wells=True)
         return False, ''
@@ -1015,7 +1050,19 @@ def step_impl(st, op, sink):
     if twin is not None and call is not None:
         first_after = canon_geo(geo)
         name, args, kwargs = call
+        plain = is_dup(op) and kind in ('refine', 'reduce', 'decompose_columns', 'refine_layers')
         try:
+            if plain:
+                # a member named twice (and another order of the members) selects the same set: the copy gets
+                # the selection without the repeat, in list order, and must end in the same state
+                sel = [a for a in args if isinstance(a, list)][0]
+                uniq = sorted(set(sel), key=sel[::-1].index)
+                with quiet():
+                    getattr(twin, name)(*[uniq if a is sel else a for a in args], **kwargs)
+                if canon_geo(twin) != first_after:
+                    hard.append(('repeated-member:differs', 'selection %r gives a different geometry than %r'
+                                 % (sel, uniq)))
+                raise StopIteration
             with quiet():
                 getattr(twin, name)(*args, **kwargs)
             if canon_geo(geo) != first_after:
@@ -1024,8 +1071,10 @@ def step_impl(st, op, sink):
             if canon_geo(twin) != first_after:
                 hard.append(('second-object:differs', 'the same call with the same argument objects on a copy of the '
                              'geometry (taken before the call) gives a different geometry'))
-        except core.CaseTimeout:
+        except (core.CaseTimeout, core.HarnessError):
             raise
+        except StopIteration:
+            pass
         except Exception as e:
             hard.append(('second-object:raises-%s' % type(e).__name__, 'the same call with the same argument '
                          'objects on a copy of the geometry raised: %s' % str(e)[:150]))
@@ -1062,7 +1111,9 @@ def step_impl(st, op, sink):
 def op_class(op):
     kind = op[0]
     if kind == 'refine':
-        return 'bisect=%s' % (op[2],)
+        return 'bisect=%s%s' % (op[2], ',repeated-member' if is_dup(op) else '')
+    if is_dup(op):
+        return 'repeated-member'
     if kind in ('rename_column', 'rename_layer'):
         return op[2]
     if kind in PRIMITIVES:
@@ -1076,8 +1127,10 @@ def op_class(op):
 
 # ----------------------------------------------------------------------------------- units
 
-NCHUNK = {'quick': {'rect2x2': 12, 'rect3x2': 40, 'mixed6': 8, 'g7': 8, 'rect2x2L': 12, 'rect2x1n': 4, 'hang7r0': 12},
-          'thorough': {'rect2x2': 68, 'rect3x2': 48, 'mixed6': 40, 'g7': 8, 'rect2x2L': 16, 'rect2x1n': 16}}
+NCHUNK = {'quick': {'rect2x2': 12, 'rect3x2': 40, 'mixed6': 8, 'g7': 8, 'rect2x2L': 12, 'rect2x1n': 4, 'hang7r0': 12,
+                    'rect2x2Lw0': 12, 'rect2x2Lw3': 1},
+          'thorough': {'rect2x2': 68, 'rect3x2': 48, 'mixed6': 40, 'g7': 8, 'rect2x2L': 68, 'rect2x1n': 16,
+                       'rect2x2Lw0': 16, 'rect2x2Lw3': 16}}
 for _r in range(7):
     NCHUNK['thorough']['hang7r%d' % _r] = 8
     if _r:
